@@ -30,6 +30,7 @@ mod exm_alp;
 use exm_alp::ex_alp::io_utils;
 mod eng_domcyc;
 mod eng_cacheorder;
+mod eng_cachedom;
 mod exgen;
 mod exgen_b;
 
@@ -76,6 +77,7 @@ fn main() {
         "exmodel" => eng_exmodel::run_exmodel(&a),
         "domcyc" => eng_domcyc::run_domcyc(&a),
         "cacheorder" => eng_cacheorder::run_cacheorder(&a),
+        "cachedom" => eng_cachedom::run_cachedom(&a),
         e => { eprintln!("unknown engine {}", e); std::process::exit(2); }
     }
 }
